@@ -89,7 +89,7 @@ class TransactionManager(FnCheck):
         chk = self
 
         class H(LockLog):
-            tracked_names = ('transaction', 'current_transaction', 'error')
+            tracked_names = ('transaction', 'current_transaction', 'error', 'rt_updates')
 
             def on_yield(self, ex_, st, v, node):
                 st.ghost['steps'] += (('body', locks(st)),)
@@ -112,6 +112,10 @@ class TransactionManager(FnCheck):
                     return [(st, None)]
                 if attr == 'current_transaction':
                     st.ghost['steps'] += (('current:=' + ('None' if val.kind == 'none' else 'tr'), locks(st)),)
+                if attr == 'rt_updates':
+                    # a second observable the provider sends waveform reports from: publishing through it is a step of
+                    # the same critical section
+                    st.ghost['steps'] += (('publish_rt', locks(st)),)
                 return None
         return H()
 
